@@ -10,7 +10,7 @@ Oracle : windows_k = items[k*s : k*s+w] for k*s < n; windows are created in orde
 """
 import random
 
-from ..common import Check, Outcome, bootstrap, interleave
+from ..common import Check, Outcome, bootstrap, interleave, with_prelude, prelude_tags, shrink_prelude, PRELUDE_TAGS
 from .. import windows
 
 rs = bootstrap()
@@ -37,10 +37,13 @@ class C05(Check):
             'non-trivial = some key lifetime has >= 2 windows; distinct = hash of the case')
     ASSUMPTIONS = ['the order in which ONE source item is delivered to several simultaneously open windows is not constrained (the suite pins slot order, the property does not)']
     ANCHORS = ['rxsci/data/roll.py', 'rxsci/operators/multiplex.py']
-    REQUIRED_TAGS = ['top', 'group', 'roll', 'roll_eq', 'split', 'w<s', 'w=s', 'w>s', 'w%s!=0', 'n=0', 'n<w', 'ring-wrapped', 'w>256']
+    REQUIRED_TAGS = ['top', 'group', 'roll', 'roll_eq', 'split', 'w<s', 'w=s', 'w>s', 'w%s!=0', 'n=0', 'n<w', 'ring-wrapped', 'w>256'] + PRELUDE_TAGS
     REQUIRED_OBSERVED = ['child_lifetimes_checked', 'parent_lifetimes_checked', 'partial_windows_flushed']
 
     def generate(self, rng, tier, shard, nshards):
+        return with_prelude(self._generate(rng, tier, shard, nshards), rng)
+
+    def _generate(self, rng, tier, shard, nshards):
         return interleave(self._box(tier, shard, nshards), self._nested(rng, tier))
 
     def _box(self, tier, shard, nshards):
@@ -93,7 +96,8 @@ class C05(Check):
             out.tags.append('n=0')
         elif n < w:
             out.tags.append('n<w')
-        ob = windows.observe(case['parent_node'], ['roll', w, s, None], items)
+        ob = windows.observe(case['parent_node'], ['roll', w, s, None], items, prelude=case.get('prelude'))
+        prelude_tags(case, out)
         if ob.snap.err is not None or not ob.snap.done:
             return out.fail('roll:stream-error', error=repr(ob.snap.err), done=ob.snap.done)
         if ob.odd or ob.orphans:
@@ -126,6 +130,7 @@ class C05(Check):
         return {'shards_that_enumerated_their_part_of_the_box_completely': self.box_done}
 
     def shrink(self, case):
+        yield from shrink_prelude(case)
         items = case['items']
         if case['parent'] == 'top':
             if items:
